@@ -180,6 +180,7 @@ static inline int lsan_leaks_site(std::string& site) {
         if (fn.find("operator new") != std::string::npos || fn.find("malloc") != std::string::npos || fn.find("sim_gmp") != std::string::npos
             || fn.find("interceptor") != std::string::npos || (fn.find("realloc") != std::string::npos && fn.compare(0, 5, "__gmp") != 0) || fn.find("allocator") != std::string::npos
             || fn.find("__gnu_cxx") != std::string::npos || fn.find("std::") == 0) continue;
+        if (strstr(line, "libgmpxx.so") && fn.compare(0, 5, "__gmp") != 0) fn = "gmpxx:" + fn;     // e.g. libgmpxx's operator<<, not the library's own
         for (char& ch : fn) if (ch == ' ' || ch == '|') ch = '_';
         if (fn.size() > 80) fn.resize(80);
         site = fn; break;
